@@ -310,8 +310,15 @@ def run_idfit(prog, ctx=None):
     PK = Analysis.PK
 
     def hook(an, b, i, el, st):
+        # trace partition that unrolls the byte loop: the remaining length while it is a known constant, and (for loops that
+        # count with an index of their own and leave the length alone) every integer local that holds a small constant
         v = st.get(("v", lenp))
-        st[PK] = v.lo if (v is not None and v.is_const()) else "?"
+        key = [v.lo if (v is not None and v.is_const()) else "?"]
+        for k2 in sorted(k for k in st if isinstance(k, tuple) and k[0] == "v" and k[1] != lenp and k[1] != idp):
+            x = st[k2]
+            if x is not None and hasattr(x, "is_const") and x.is_const() and isinstance(x.lo, int) and 0 <= x.lo <= 16:
+                key.append((k2[1], x.lo))
+        st[PK] = tuple(key)
 
     def outcomes(w, lo, hi):
         an = Analysis(prog, f, hook=hook, edge_hook=lambda an, b, c, t, st: hook(an, b, 0, None, st))
@@ -319,8 +326,8 @@ def run_idfit(prog, ctx=None):
         st0[("v", idp)] = AV(lo, hi)
         st0[("v", lenp)] = AV(w, w)
         st0[("v", ptrp)] = AV(1, (1 << 64) - 1)
-        st0[PK] = w
-        an.run(state=st0, max_parts=64)
+        st0[PK] = (w,)
+        an.run(state=st0, max_parts=200)
         out = []
         for el, vexpr, pos, parts in return_cases(an, f):
             for pk, st in parts:
